@@ -37,12 +37,40 @@ type GenOpts struct {
 }
 
 func pickStr(t *rapid.T, label string, xs []string) string {
-	return xs[rapid.IntRange(0, len(xs)-1).Draw(t, label)]
+	return xs[Uniform(t, label, len(xs))]
 }
 
+// chance is true with probability ~pct/100. rapid's integer generators are
+// heavily biased towards small values (IntRange(0,99) < 30 holds for ~62% of the
+// draws), so the coin is built from fair bits instead (resolution 1/32).
 func chance(t *rapid.T, label string, pct int) bool {
-	return rapid.IntRange(0, 99).Draw(t, label) < pct
+	v := 0
+	for i := 0; i < 5; i++ {
+		v <<= 1
+		if rapid.Bool().Draw(t, label) {
+			v |= 1
+		}
+	}
+	return v*100 < pct*32
 }
+
+// Uniform draws an (almost) unbiased integer in [0,n) from fair bits.
+func Uniform(t *rapid.T, label string, n int) int {
+	if n <= 1 {
+		return 0
+	}
+	v := 0
+	for i := 0; i < 16; i++ {
+		v <<= 1
+		if rapid.Bool().Draw(t, label) {
+			v |= 1
+		}
+	}
+	return v % n
+}
+
+// Chance is the exported form of chance.
+func Chance(t *rapid.T, label string, pct int) bool { return chance(t, label, pct) }
 
 // sparseKeys draws a small set of "interesting" record keys (DESIGN §11.1).
 func sparseKeys(t *rapid.T, label string, nsrc int, ns []int, max int) [][2]int {
@@ -239,7 +267,7 @@ func GenCase(t *rapid.T, o GenOpts) *Case {
 		c.StoreFaults = append(c.StoreFaults, f)
 	}
 
-	if len(o.ClientKinds) > 0 && rapid.Float64Range(0, 1).Draw(t, "clientp") < o.ClientProb {
+	if len(o.ClientKinds) > 0 && chance(t, "clientp", int(o.ClientProb*100)) {
 		total := c.TotalRecords()
 		c.Client = append(c.Client, ClientAction{
 			Kind:   pickStr(t, "client", o.ClientKinds),
